@@ -317,6 +317,14 @@ def run_config(ctx, drv, recipe, old_recipe, store, mode, pre, idx, call="exact"
             impl_view = {"raised": raised_k is not None, "target": state_k, "staged_left": bool(extra_k)}
         if model_view != impl_view:
             ctx.disagree("fault-outcome", case, model_view, impl_view, note=f"k={k} {case['step']}")
+        # ---- order of the primitive store writes vs the serializer model's write trace
+        if k is None and not (mode == "w" and pre != "absent"):
+            real_w = [{"w:group-root": "group", "w:group": "group", "w:attr": "attr", "w:array": "array", "w:bytes": "bytes"}[t]
+                      for t in trace if t.startswith("w:")]
+            mt = drv.ask({"op": "trace", "v": spec_new})
+            if mt.get("ok") != real_w:
+                ctx.disagree("write-trace", case, mt.get("ok"), real_w, note="sequence of store writes of save()")
+            ctx.dist["write_trace_compared"] += 1
         # ---- model's own step list has the same shape as the recorded trace (fault-free run only)
         if k is None and not (mode == "w" and pre != "absent"):
             nt = steps.count("tmpWrite")
